@@ -134,6 +134,58 @@ theorem redeemOf_err {tc : Tok.Cfg} {idp : IdP} {code ver uri : Str} (hf : Login
   | noAnswer h => simp [h]
   | rejected tr e h he => simp [h, he]
 
+/-- `createSession` stamps the session with the clock it is given — never with a time taken from the token -/
+theorem createSession_createdAt {tc : Tok.Cfg} {render : Json → Str} {refresh : Bool} {tr : TokenResp} {prof : Profile}
+    {now : Int} {s0 : Session} (h : Tok.createSession tc render refresh tr prof now = .ok s0) :
+    s0.createdAt = some now ∧ s0.expiresOn = some tr.expiry := by
+  unfold Tok.createSession at h
+  simp only at h
+  split at h
+  · simp at h
+  · split at h
+    · simp at h
+    · simp only [Except.ok.injEq] at h
+      subst h
+      exact ⟨rfl, rfl⟩
+
+/-- **login_session_stamped_with_proxy_clock** (C09, the issue time).  Whatever the identity provider
+    answers — whatever `iat`, `auth_time`, `nbf` or `exp` its ID token carries — the session a login
+    establishes is stamped with the PROXY's clock at the callback.  The lifetime `window_iff` enforces on
+    the credential's timestamp therefore runs from the moment of issue, not from a time the provider
+    supplied. -/
+theorem login_session_stamped_with_proxy_clock (cfg : Cfg) (tc : Tok.Cfg) (idp : IdP) (env : Env) (g : Glue) (r : Req)
+    (s : Session) (h : Established (callbackHandler cfg (withIdP tc idp env) r g.decodeB64) s) :
+    s.createdAt = some idp.now := by
+  obtain ⟨nonce, rd, csrf, s0, _, _, _, _, hred, _, hs, _⟩ :=
+    callback_established cfg (withIdP tc idp env) g r s h
+  obtain ⟨tr, _, hcb⟩ := redeemOf_ok hred
+  have hc := (createSession_createdAt (refresh := false) hcb).1
+  subst hs
+  simp [O2P.callbackSession, stampSession, Session.withNonce, hc]
+
+/-- ... and a refresh re-stamps it with the proxy's clock at the refresh (Layer A, `refreshOutcome`), again
+    independent of the token answer -/
+theorem refresh_stamped_with_proxy_clock (tc : Tok.Cfg) (idp : IdP) (old s' : Session)
+    (h : refreshOf tc idp old = .refreshed s') : s'.createdAt = some idp.now := by
+  unfold refreshOf Tok.refreshRes at h
+  split at h
+  · simp at h
+  · split at h
+    · simp at h
+    · rename_i r _
+      split at h
+      · rename_i s hs
+        simp only [RefreshRes.refreshed.injEq] at h
+        subst h
+        unfold Tok.refreshSession at hs
+        split at hs
+        · simp at hs
+        · rename_i n hn
+          simp only [Except.ok.injEq] at hs
+          subst hs
+          exact (createSession_createdAt hn).1
+      · simp at h
+
 /-- **login_fails_closed** (C14 end to end, login flow).  If the redemption the callback performs
     meets a fault of the identity provider — for EVERY CSRF cookie the request could present — the
     callback handler sets no session cookie, whatever else holds. -/
